@@ -77,7 +77,7 @@ def run_patterned(B, case, elems, yelems):
     return items
 
 
-KEYS = ['x', 'y']
+KEYS = ['x', 'y']          # default; a case may name its own keys in case['keys']
 
 
 def run_multi(B, case, elems, yelems):
@@ -86,9 +86,13 @@ def run_multi(B, case, elems, yelems):
     from fggs.multi import MultiTensor, multi_solve, multi_mv
     T = B.torch
     shapes = {k: T.Size(tuple(v)) for k, v in case['shapes'].items()}
+    KEYS = case.get('keys', ['x', 'y'])
     numel = {k: shapes[k].numel() for k in KEYS}
-    off = {'x': 0, 'y': numel['x']}
-    N = numel['x'] + numel['y']
+    off = {}
+    N = 0
+    for k in KEYS:
+        off[k] = N
+        N += numel[k]
     a = MultiTensor((shapes, shapes), B.sr)
     b = MultiTensor((shapes,), B.sr)
     A = [[B.O.zero for _ in range(N)] for _ in range(N)]
